@@ -122,6 +122,9 @@ pub fn run_case(c: &Sexp) -> R<Sexp> {
             let g = make_query(terms_of(&l[1])?);
             Ok(ok(L(vec![sexp_of_goal(&g), A(get_var_id().to_string())])))
         },
-        _ => Err(format!("unknown case: {}", c.to_text())),
+        _ => match crate::ops_solve::run_case(c) {
+            Some(r) => r,
+            None => Err(format!("unknown case: {}", c.to_text())),
+        },
     }
 }
